@@ -375,6 +375,31 @@ func storageCheck(d any, way int, st *Stats) error {
 		if err := same("List.Get", l.Get(idx)); err != nil {
 			return err
 		}
+		wantT := at.TypeObject
+		if isList {
+			wantT = at.TypeList
+		}
+		if got := l.TypeOf(idx); got != wantT {
+			return errf("List.TypeOf reports %d for a stored derived %T (stored via %s), expected %d", got, d, name, wantT)
+		}
+		if got := l.TypeOfTF(fmt.Sprintf("#%d", idx)); got != wantT {
+			return errf("List.TypeOfTF reports %d for a stored derived %T (stored via %s), expected %d", got, d, name, wantT)
+		}
+		// a tree-form write that descends THROUGH the stored derived value must reach it, not replace it
+		if isList {
+			l.SetTF(fmt.Sprintf("#%d#0", idx), "written-through")
+			if dl.Count() == 0 || dl.Get(0) != "written-through" {
+				return errf("SetTF(#%d#0) on the host did not write into the stored derived list (stored via %s)", idx, name)
+			}
+		} else {
+			l.SetTF(fmt.Sprintf("#%d.wt", idx), "written-through")
+			if !do.KeyExists("wt") {
+				return errf("SetTF(#%d.wt) on the host did not write into the stored derived object (stored via %s)", idx, name)
+			}
+		}
+		if err := same("List.Get after a tree-form write through the derived value", l.Get(idx)); err != nil {
+			return err
+		}
 		if err := same("List.GetTF", l.GetTF(fmt.Sprintf("#%d", idx))); err != nil {
 			return err
 		}
@@ -478,6 +503,30 @@ func storageCheck(d any, way int, st *Stats) error {
 	if hostO != nil {
 		o := hostO
 		if err := same("Object.Get", o.Get(key)); err != nil {
+			return err
+		}
+		wantT := at.TypeObject
+		if isList {
+			wantT = at.TypeList
+		}
+		if got := o.TypeOf(key); got != wantT {
+			return errf("Object.TypeOf reports %d for a stored derived %T (stored via %s), expected %d", got, d, name, wantT)
+		}
+		if got := o.TypeOfTF("." + key); got != wantT {
+			return errf("Object.TypeOfTF reports %d for a stored derived %T (stored via %s), expected %d", got, d, name, wantT)
+		}
+		if isList {
+			o.SetTF("."+key+"#0", "written-through")
+			if dl.Count() == 0 || dl.Get(0) != "written-through" {
+				return errf("SetTF(.%s#0) on the host did not write into the stored derived list (stored via %s)", key, name)
+			}
+		} else {
+			o.SetTF("."+key+".wt", "written-through")
+			if !do.KeyExists("wt") {
+				return errf("SetTF(.%s.wt) on the host did not write into the stored derived object (stored via %s)", key, name)
+			}
+		}
+		if err := same("Object.Get after a tree-form write through the derived value", o.Get(key)); err != nil {
 			return err
 		}
 		if err := same("Object.GetTF", o.GetTF("."+key)); err != nil {
@@ -635,6 +684,41 @@ func CheckC19(c *C19Case, st *Stats) error {
 	st.MarkNonTrivial()
 	if err := storageCheck(d, c.Store, st); err != nil {
 		return errf("depth %d: %v", depth, err)
+	}
+	// storing an INNER embedding level of the registered value (e.g. dog.Animal) must not disturb the
+	// registration: Ego and fluent calls still yield the outer value
+	if depth >= 2 {
+		var inner any
+		switch x := d.(type) {
+		case *DL2:
+			inner = x.DL1
+		case *DL3:
+			inner = x.DL2
+		case *DO2:
+			inner = x.DO1
+		case *DO3:
+			inner = x.DO2
+		}
+		if inner != nil {
+			st.Count("stored_inner_level")
+			hosts := []func(){
+				func() { at.NewList("x").Add(inner) },
+				func() { at.NewObject("k", inner) },
+				func() { at.NewList().SetTF("#1", inner) },
+				func() { at.NewObject().Set("a", 1, "k", inner) },
+			}
+			hosts[c.Store%len(hosts)]()
+			switch x := d.(type) {
+			case at.List:
+				if any(x.Ego()) != d || any(x.Reverse()) != d {
+					return errf("after an inner embedding level of the derived list was stored in another container, Ego()/Reverse() no longer return the registered outer value (depth %d)", depth)
+				}
+			case at.Object:
+				if any(x.Ego()) != d || any(x.Unset("nope")) != d {
+					return errf("after an inner embedding level of the derived object was stored in another container, Ego()/Unset() no longer return the registered outer value (depth %d)", depth)
+				}
+			}
+		}
 	}
 	return nil
 }
